@@ -122,7 +122,7 @@ func c07(c *ctx) {
 		cases = append(cases, cs)
 	}
 	cfgs := []config{{name: "ast", v: vPlain, memo: true}, {name: "noast", v: vNoast}, {name: "noastinline", v: vNI}, {name: "noastswitch", v: vNS}, {name: "noastboth", v: vNB}}
-	f := &family{c: c, tag: "c07", configs: cfgs, noexec: true, history: []string{"noast", "noastboth"}}
+	f := &family{c: c, tag: "c07", configs: cfgs, noexec: true, history: []string{"noast", "noastboth"}, retries: []string{"ast", "noast", "noastswitch"}}
 	f.prepareReplay = func(cs *gcase) {
 		// rebuild which state changes are capture-completion / end probes from the witness text (textual order = id)
 		info := &c07info{capState: map[int]bool{}, capAct: map[int]bool{}, endState: -1}
@@ -287,9 +287,10 @@ func c07(c *ctx) {
 		}
 	}
 	f.run(cases)
-	requireCov(c, "cases_with_inline_actions", "ref_capture_discarded_seqfail", "ref_capture_completed_in_lookahead")
+	requireCov(c, "retry_success_after_failed_attempts", "cases_with_inline_actions", "ref_capture_discarded_seqfail", "ref_capture_completed_in_lookahead")
 	c.run.Rule = "cases: choice-heavy, all-operator and shared-prefix grammars in which every capture is followed by a position probe and an action, every action is a probe recording (id, text) at the moment it runs, and half of the grammars are wrapped as Top <- R0 !{record position} so that the consumed prefix is observable without an AST; generated with -noast, -noast -inline, -noast -switch, -noast -inline -switch and with default options. " +
 		"Oracle: verdict equals the reference and the default parser; consumed prefix equals the reference; for -noast and -noast -inline the interleaved event list (actions with text, capture-completion positions, state changes) equals the reference's time-ordered list (every action reached runs, text = most recently completed capture in time); for the two -switch combinations (which legitimately attempt different alternatives) each action's text must equal the latest capture completed in the same trace, that capture must be the input text ending at the recorded position, and the derivation's actions must run in order. " +
+		"Entry rules tried in turn: on one instance (default, -noast, -noast -switch; no Reset) Parse(rule) is called for up to three rules that fail after matching something and then for a rule that accepts; every verdict must be the reference's. " +
 		"distinct_nontrivial = distinct (grammar, input) with inline actions where a completed capture was later abandoned by backtracking."
 	c.run.Assume("actions use text only in grammars that contain a capture (without one, text is not declared under -noast)")
 }
